@@ -8,6 +8,9 @@ import JunoModel.C11.ModelGate
 import JunoModel.C11.ModelConn
 import JunoModel.C11.ModelRegister
 import JunoModel.C11.ModelEvents
+import JunoModel.C11.ModelWsLoop
+import JunoModel.C11.ModelTxRules
+import JunoModel.C11.ModelNullId
 /-!
 Line-protocol driver for the C11 model (`lake build c11drv`).
 
@@ -59,6 +62,8 @@ structure St where
   beh : List (String × Behaviour) := []
   nullNotGiven : Bool := true
   hdrs : List String := []
+  /-- the server under test has the repair of `request-with-null-id-not-answered` (probed by the harness) -/
+  nullFix : Bool := false
 
 def strOfTok (cs : List Char) : Option String :=
   match hexToBytesAux cs with
@@ -186,11 +191,14 @@ def both (st : St) (f : Env → String) : String :=
   let b := f (goEnv false st.beh st.nullNotGiven)
   if a == b then a else "dk"
 
+def fixIn (st : St) (inp : Input) : Input := if st.nullFix then NullId.markInput inp else inp
+def fixOut (st : St) (j : Json) : Json := if st.nullFix then NullId.unmark j else j
+
 def answer (st : St) (inp : Input) : String :=
   both st fun env =>
-    let out := handleInputF st.cfg env st.tbl inp
+    let out := handleInputF st.cfg env st.tbl (fixIn st inp)
     let body : Json := match out.body with | none => .arr [] | some b => .arr [b]
-    render (.arr [body, logJson out.log, .arr [.bool out.goError, .bool out.panicked]])
+    render (fixOut st (.arr [body, logJson out.log, .arr [.bool out.goError, .bool out.panicked]]))
 
 def parseInput : List String → Option (Input × List String)
   | lw :: fb :: "x" :: rest => do
@@ -303,7 +311,7 @@ def step (st : St) (line : String) : St × String :=
     match bool01? gz, parseInput rest with
     | some gz, some (inp, []) =>
       (st, both st fun env =>
-        let o := handleInputX st.cfg.batchDisabled env (hdrFn st) st.tbl inp
+        let o := handleInputX st.cfg.batchDisabled env (hdrFn st) st.tbl (fixIn st inp)
         renderEvents o.events ++ " | " ++ renderHeader o.header ++ " | " ++ renderHeader (httpPostHeaders gz o))
     | _, _ => (st, "bad-op")
   | ["logobj", "x"] => (st, "none")
@@ -340,9 +348,9 @@ def step (st : St) (line : String) : St × String :=
     match httpMethod? m, bool01? root, parseInput rest with
     | some m, some root, some (inp, []) =>
       (st, both st fun env =>
-        let r := serveHTTP st.cfg env st.tbl { method := m, pathIsRoot := root, body := inp }
+        let r := serveHTTP st.cfg env st.tbl { method := m, pathIsRoot := root, body := fixIn st inp }
         let body : Json := match r.body with | none => .arr [] | some b => .arr [b]
-        s!"{r.status} {if r.json then 1 else 0} {if r.dropped then 1 else 0} " ++ render (.arr [body, logJson r.log]))
+        s!"{r.status} {if r.json then 1 else 0} {if r.dropped then 1 else 0} " ++ render (fixOut st (.arr [body, logJson r.log])))
     | _, _, _ => (st, "bad-op")
   | "ws" :: k :: rest =>
     match natOfChars k.toList with
@@ -350,8 +358,8 @@ def step (st : St) (line : String) : St × String :=
       match parseInputs k rest with
       | some (msgs, []) =>
         (st, both st fun env =>
-          let outs := wsSession st.cfg env st.tbl msgs
-          render (.arr [.arr (wsWire outs), logJson (wsLog outs), .bool (wsClosed outs)]))
+          let outs := wsSession st.cfg env st.tbl (msgs.map (fixIn st))
+          render (fixOut st (.arr [.arr (wsWire outs), logJson (wsLog outs), .bool (wsClosed outs)])))
       | _ => (st, "bad-op")
     | none => (st, "bad-op")
   | "pretty" :: rest =>
@@ -383,6 +391,55 @@ def step (st : St) (line : String) : St × String :=
       (st, " ".intercalate (s!"max={g.maxRequests}" ::
         (g.trace ops).map (fun (o, r, qd, rj) => s!"{outName o}:{r}/{qd}/{rj}")))
     | _, _, _ => (st, "bad-op")
+  | "wsloop" :: bound :: rest =>
+    -- wsloop <drain bound | -> {<frame lengths, comma separated | -> <taken> <ok 0|1>}*
+    let drain? : Option (Nat → Nat) :=
+      if bound = "-" then some WsLoop.drainAll else (natOfChars bound.toList).map WsLoop.drainAtMost
+    let rec msgs (fuel : Nat) (ws : List String) (acc : List WsLoop.Msg) : Option (List WsLoop.Msg) :=
+      match fuel, ws with
+      | _, [] => some acc.reverse
+      | 0, _ => none
+      | fuel + 1, f :: t :: o :: more =>
+        let frames? : Option (List Nat) :=
+          if f = "-" then some [] else (f.splitOn ",").mapM (fun x => natOfChars x.toList)
+        match frames?, natOfChars t.toList, bool01? o with
+        | some fr, some t, some o => msgs fuel more ({ frames := fr, taken := t, ok := o } :: acc)
+        | _, _, _ => none
+      | _, _ => none
+    match drain?, msgs rest.length rest [] with
+    | some drain, some ms =>
+      let (hs, e) := WsLoop.run drain 0 ms
+      let ends : String := match e with
+        | .clientClosed => "client" | .handlerError => "handler-error" | .outOfStep u => s!"out-of-step:{u}"
+      (st, " ".intercalate (hs.map (fun h => s!"{h.index}{if h.fromStart then "" else "!"}") ++ ["|", ends,
+        s!"listener={WsLoop.listenerCalls (hs, e)}", s!"close={if WsLoop.serverSendsClose e then 1 else 0}"]))
+    | _, _ => (st, "bad-op")
+  | ["txrule", ty, bits] =>
+    let ty? : Option TxRules.TxType := match ty with
+      | "unknown" => some .unknown | "declare" => some .declare | "deploy" => some .deploy
+      | "deployAccount" => some .deployAccount | "invoke" => some .invoke | "l1Handler" => some .l1Handler | _ => none
+    let bs := bits.toList
+    match ty?, bs.length == TxRules.Field.all.length && bs.all (fun c => c == '0' || c == '1') with
+    | some ty, true =>
+      let present (f : TxRules.Field) : Bool :=
+        ((TxRules.Field.all.zip bs).find? (fun p => p.1 == f)).map (fun p => p.2 == '1') |>.getD false
+      (st, if TxRules.accepts ty present then "ok" else "refused")
+    | _, _ => (st, "bad-op")
+  | ["nullfix", b] =>
+    match bool01? b with
+    | some b => ({ st with nullFix := b }, "ok")
+    | none => (st, "bad-op")
+  | ["gatepost", c, q, exits] =>
+    match natOfChars c.toList, natOfChars q.toList,
+      exits.toList.mapM (fun ch => match ch with
+        | 'A' => some (true, PostExit.answered) | 'S' => some (true, PostExit.silent)
+        | 'E' => some (true, PostExit.goError) | 'P' => some (true, PostExit.panicked)
+        | 'a' => some (false, PostExit.answered) | 's' => some (false, PostExit.silent) | _ => none) with
+    | some c, some q, some xs =>
+      let outName : Gate.Outcome → String
+        | .admitted => "admitted" | .queued => "queued" | .busy => "busy" | .ctxErr => "ctxErr" | .noop => "noop"
+      (st, " ".intercalate (((Gate.St.new c q).posts xs).map (fun (o, r, qd, rj) => s!"{outName o}:{r}/{qd}/{rj}")))
+    | _, _, _ => (st, "bad-op")
   | "httpg" :: adm :: m :: root :: rest =>
     let adm? : Option Admission := match adm with
       | "admitted" => some .admitted | "busy" => some .busy | "deadline" => some .deadlineWhileQueued
@@ -390,12 +447,12 @@ def step (st : St) (line : String) : St × String :=
     match adm?, httpMethod? m, bool01? root, parseInput rest with
     | some adm, some m, some root, some (inp, []) =>
       (st, both st fun env =>
-        let g := serveHTTPGated adm st.cfg env st.tbl { method := m, pathIsRoot := root, body := inp }
+        let g := serveHTTPGated adm st.cfg env st.tbl { method := m, pathIsRoot := root, body := fixIn st inp }
         let r := g.http
         let body : Json := match r.body with | none => .arr [] | some b => .arr [b]
         let txt := match g.text with | none => "-" | some t => bytesToHex t.toUTF8.toList
         s!"{r.status} {if r.json then 1 else 0} {if r.dropped then 1 else 0} {if g.retryAfter then 1 else 0} {txt} " ++
-          render (.arr [body, logJson r.log]))
+          render (fixOut st (.arr [body, logJson r.log])))
     | _, _, _, _ => (st, "bad-op")
   | ["conn", hr, he, wo, np] =>
     match bool01? hr, bool01? he, bool01? wo, natOfChars np.toList with
